@@ -125,6 +125,9 @@ pub struct Spec {
     pub auto_shstrtab: bool,
     /// emit no section header table at all (e_shoff = 0)
     pub no_shdrs: bool,
+    /// order in which the bodies are laid out in the file (final section numbers, 1-based);
+    /// sections not listed follow in index order. Header indexes are unaffected.
+    pub body_order: Vec<usize>,
 }
 
 impl Spec {
@@ -142,6 +145,7 @@ impl Spec {
             segs: Vec::new(),
             auto_shstrtab: true,
             no_shdrs: false,
+            body_order: Vec::new(),
         }
     }
 }
@@ -249,10 +253,14 @@ pub fn build(spec: &Spec) -> Built {
     // place Auto bodies
     let mut ranges: Vec<(u64, u64)> = vec![(0, 0); nsec];
     let mut placed: Vec<(usize, usize)> = Vec::new(); // (sec, file offset) for body writes
-    for (i, s) in secs.iter().enumerate() {
-        if i == 0 {
-            continue;
+    let mut order: Vec<usize> = spec.body_order.iter().copied().filter(|i| *i >= 1 && *i < nsec).collect();
+    for i in 1..nsec {
+        if !order.contains(&i) {
+            order.push(i);
         }
+    }
+    for i in order {
+        let s = &secs[i];
         match &s.place {
             Place::Auto | Place::AutoSize { .. } => {
                 let off = align_up(cursor, s.align.max(1));
